@@ -635,6 +635,9 @@ func forcedValue(r *vk.Run) {
 		}},
 		{"replace", func(g *rig, proc int, _ bool) sm.Op { return sm.Op{Kind: sm.Set, Val: g.val3(proc, 1)} }},
 		{"check", func(g *rig, proc int, _ bool) sm.Op { return sm.Op{Kind: sm.Set, Val: g.val3(proc, 0), Opts: sm.Opts{ExpectCheck: true}} }},
+		{"cas-never-written", func(g *rig, proc int, _ bool) sm.Op {
+			return sm.Op{Kind: sm.Set, Val: g.val3(proc, 1), Opts: sm.Opts{ExpectValue: &tat{DefaultString: "never-written"}}}
+		}},
 	}
 	idx := 0
 	for _, window := range []string{"gau.afterRead", "gau.beforeLock"} {
@@ -880,6 +883,9 @@ func stress(r *vk.Run) {
 						o := sm.Opts{}
 						if ls := lastSeen[""]; ls != nil {
 							o.ExpectValue = proto.Clone(ls)
+						} else {
+							// nothing seen yet (possibly nothing stored yet): a value nobody ever wrote is not what the register holds
+							o.ExpectValue = &tat{DefaultString: "never-written"}
 						}
 						o.ExpectCheck = prng.Intn(3) == 0 // both preconditions on one write: each must hold
 						op = sm.Op{Kind: sm.Set, Val: g.val3(p, int32(prng.Intn(2))), Opts: o}
